@@ -278,6 +278,22 @@ func (e *Explorer) runPath(in *Interp, it workItem) {
 			}
 		}()
 	}
+	if outcome == "limit" && (strings.Contains(msg, "symbolic decisions on one path") || strings.Contains(msg, "unwinding assertion") || strings.Contains(msg, "interpreter steps") || strings.Contains(msg, "call depth")) {
+		// A failed unwinding assertion: either the bound is too small or the
+		// real code does not terminate on these inputs.  The native replay
+		// decides: the inputs are run against the real build under a deadline
+		// and a run that does not come back is reported as the violation
+		// `terminates`; otherwise the path stays INCONCLUSIVE.
+		func() {
+			defer func() { recover() }()
+			h.mu.Lock()
+			have := h.violSeen["terminates"]
+			h.mu.Unlock()
+			if have == 0 && in.ensureModel() {
+				in.onViolation(Violation{Harness: h.Name, ID: "terminates", Msg: "unwinding assertion failed and the native run does not terminate: " + msg, Inputs: in.modelInputs(in.model)})
+			}
+		}()
+	}
 	var wit *Witness
 	if outcome == "done" {
 		// witness for vacuity / translator validation: first completed path and
